@@ -184,6 +184,14 @@ static int fragments_needed_one_data_local(xor_code_t *code_desc,
   int *missing_data = get_missing_data(code_desc, fragments_to_exclude);
   int *missing_parity = get_missing_parity(code_desc, fragments_to_exclude);
   int parity_index = index_of_connected_parity(code_desc, fragment_to_reconstruct, missing_parity, missing_data);
+  // The equation must not depend on any other data element that is to be excluded
+  if (parity_index >= 0) {
+    unsigned int excluded_bm = (unsigned int)missing_elements_bm(code_desc, missing_data, data_bit_lookup);
+    excluded_bm &= ~((unsigned int)1 << fragment_to_reconstruct);
+    if (code_desc->parity_bms[parity_index-code_desc->k] & excluded_bm) {
+      parity_index = -1;
+    }
+  }
   free(missing_data);
   free(missing_parity);
 
